@@ -12,9 +12,12 @@ echo "| change | property | expected | check exit | caught | first violation sig
 echo "|---|---|---|---|---|---|"
 for d in /verif/seeded/*/; do
   [ -f "$d/patch.diff" ] || continue
-  r=$(/verif/scripts/run_seeded.sh "$d" "" "$secs" | head -1)
+  props=$(python3 -c "import json;m=json.load(open('$d/meta.json'));print(' '.join(m.get('check_with',[m['property']])))")
+  for pp in $props; do
+  r=$(/verif/scripts/run_seeded.sh "$d" "$pp" "$secs" | head -1)
   n=$(echo "$r" | awk '{print $2}'); p=$(echo "$r" | sed 's/.*property=\([A-Z0-9]*\).*/\1/'); e=$(echo "$r" | sed 's/.*exit=\([^ ]*\).*/\1/'); c=$(echo "$r" | sed 's/.*caught=\([^ ]*\).*/\1/'); s=$(echo "$r" | sed 's/.*signature=//')
   echo "| seeded/$n | $p | violation | $e | $c | \`$s\` |"
+  done
 done
 for f in /verif/mutants/*.diff; do
   n=$(basename "$f" .diff); p=$(echo "$n" | sed 's/^neutral-//' | cut -d- -f1 | tr a-z A-Z)
